@@ -22,7 +22,19 @@
                   library function is known to be wrong (see PlugGeneral below)
    cunsup       : circuit to_tensor on a gate kind the evaluator does not support: outside the property
                   ("all circuits over the gates the circuit evaluator supports"), counted in stats only
-   fok is the harness's 1e-9 comparison of the float-typed result with the (exact, validated) Scalar4 result. *)
+   fok is the harness's 1e-9 comparison of the float-typed result with the (exact, validated) Scalar4 result.
+   --- the float reference evaluator and the generic-phase tier (phases that are NOT multiples of pi/4) ---
+   reset / circ with a field `ref` (engine flag --ref): the tensor that the harness's independent FLOAT reference evaluator
+                  (harness/src/refeval.rs) computes for this pi/4 diagram / circuit, per entry <<round(re 2^20), round(im 2^20)>>
+                  -> RefEvalOK: every entry is within 2^-18 of the exact entry of Den(cur) / CircSem(c), decided in integer
+                  arithmetic (RefEntryClose).  This makes the float oracle a checked artefact: it is what decides the booleans of
+                  the generic-phase events here and in Trace_Simp / Trace_Rules / Trace_Circ / Trace_Extract.
+   begin        : header of a generic-phase group (what = generic: diagram `pre`; generic_circ: circuit `c`); no exact
+                  denotation exists in Ring, nothing is computed
+   tensorf / ctensorf : to_tensorf and to_tensor4 (entries converted with complex_value) of a generic-phase diagram / circuit
+                  (ctensorf via = to_graph: through the diagram) against the reference evaluator at 1e-9, computed in the
+                  harness (floating point cannot be decided by TLC) and logged as booleans fok / f4ok
+                  -> FloatTensorOK, Tensor4FloatOK, rank (RankOK), NoPanic *)
 EXTENDS TraceLib, ToGraph, FiniteSets, FiniteSetsExt
 VARIABLES l, cur, c, cs, viol, drift, stats
 vars == <<l, cur, c, cs, viol, drift, stats>>
@@ -34,7 +46,8 @@ Init == l = 1 /\ cur = EmptyG /\ c = [n |-> 0, gates |-> <<>>] /\ cs = <<>> /\ v
         /\ stats = [diagrams |-> 0, circuits |-> 0, comparisons |-> 0, nontrivial |-> 0,
                     helper_pairs |-> 0, helper_proportional |-> 0, helper_float_unjudged |-> 0, helper_float_unjudged_agree |-> 0,
                     helper_objects |-> 0, qubit_ops |-> 0, wide |-> 0, plugs |-> 0, plug_general |-> 0, plug_general_bad |-> 0,
-                    unsupported |-> 0, unsupported_panics |-> 0]
+                    unsupported |-> 0, unsupported_panics |-> 0,
+                    ref_checked |-> 0, ref_entries |-> 0, ref_unjudged |-> 0, generic |-> 0, generic_approx |-> 0]
 Check1(ok, name) == IF ok THEN <<>> ELSE <<<<l, name>>>>
 B2N(b) == IF b THEN 1 ELSE 0
 \* ---------- expected tensors of the QubitOps API ----------
@@ -56,9 +69,45 @@ StartT(e) == CASE e.start = "ident" -> IdTensor(e.r0 \div 2)
 GaussDyadic(T) == \A b \in DOMAIN T : T[b][2] = 0 /\ T[b][4] = 0
 ObjT(kind, j) == IF kind = "g" THEN Den(FromAbs(j)) ELSE CircSem(CircFromAbs(j))
 ObjRank(kind, j) == IF kind = "g" THEN Len(j.ins) + Len(j.outs) ELSE 2 * j.n
+\* ---------- RefEvalOK: the harness's float reference evaluator against the exact tensor, in 32-bit integer arithmetic ----------
+\* A ring element z = <<a,b,c,d,e>> has re = (a + (b-d)/sqrt2) 2^e and im = (c + (b+d)/sqrt2) 2^e.  With s = e + 20 the fixed-point
+\* value is A + M/sqrt2 for the integers A = a 2^s, M = (b-d) 2^s.  M/sqrt2 is computed as M * C30 / 2^30 with
+\* C30 = round(2^30/sqrt2) = 759250125 (2^30/sqrt2 = 759250124.994, relative error 8e-12) by 15-bit limbs so that no
+\* intermediate exceeds 2^31: for 0 <= M < 2^28 the result is in (M/sqrt2 - 2.01, M/sqrt2 + 0.01).  An entry is judged when
+\* 0 <= s <= 27 and |a|, |b-d|, |c|, |b+d| < 2^(27-s) (so |A|, |M| < 2^27); other entries are counted (ref_unjudged).
+C30 == 759250125
+DivSqrt2(m) == LET m1 == m \div 32768  m0 == m % 32768  c1 == C30 \div 32768  c0 == C30 % 32768
+               IN m1 * c1 + ((m1 * c0 + m0 * c1 + ((m0 * c0) \div 32768)) \div 32768)
+SDivSqrt2(m) == IF m >= 0 THEN DivSqrt2(m) ELSE -DivSqrt2(-m)
+AbsI(x) == IF x >= 0 THEN x ELSE -x
+RefEntryJudged(z) == LET s == z[5] + 20 IN
+                     /\ s >= 0 /\ s <= 27
+                     /\ LET lim == Pow2(27 - s) IN AbsI(z[1]) < lim /\ AbsI(z[2] - z[4]) < lim /\ AbsI(z[3]) < lim /\ AbsI(z[2] + z[4]) < lim
+\* |ref - exact| <= 2^-18 implies |R - predicted| <= 4 + 0.5 (rounding of R) + 2.01 (DivSqrt2): accept iff <= 6, i.e. everything
+\* accepted is within (6 + 2.51) 2^-20 < 2^-16.9 of the exact value and nothing within 2^-18 is refused
+RefEntryClose(r, z) == LET f == Pow2(z[5] + 20) IN
+                       /\ AbsI(r[1] - (z[1] * f + SDivSqrt2((z[2] - z[4]) * f))) <= 6
+                       /\ AbsI(r[2] - (z[3] * f + SDivSqrt2((z[2] + z[4]) * f))) <= 6
+RefJudgedSet(ref, T, n) == {k \in 1..Len(ref) : RefEntryJudged(T[NatToBits(k - 1, n)])}
+RefEvalOK(ref, T, n) == /\ Len(ref) = Pow2(n)
+                        /\ \A k \in RefJudgedSet(ref, T, n) : RefEntryClose(ref[k], T[NatToBits(k - 1, n)])
+\* the part of a header step that concerns `ref` (T is only evaluated when the field is there)
+RefStep(e, T, n) ==
+  IF Has(e, "ref") THEN
+    LET TT == TLCEval(T)
+        nj == IF Len(e.ref) = Pow2(n) THEN Cardinality(RefJudgedSet(e.ref, TT, n)) ELSE 0 IN
+    /\ viol' = Check1(RefEvalOK(e.ref, TT, n), "RefEvalOK") \o viol
+    /\ stats' = [stats EXCEPT !.ref_checked = @ + 1, !.ref_entries = @ + nj, !.ref_unjudged = @ + (Len(e.ref) - nj)]
+  ELSE UNCHANGED <<viol, stats>>
 Step(e) ==
-  CASE e.k = "reset" -> cur' = FromAbs(e.pre) /\ UNCHANGED <<c, cs, viol, drift, stats>>
-    [] e.k = "circ"  -> LET cc == CircFromAbs(e.c) IN c' = cc /\ cs' = CircSem(cc) /\ UNCHANGED <<cur, viol, drift, stats>>
+  CASE e.k = "reset" -> LET g == FromAbs(e.pre) IN cur' = g /\ RefStep(e, Den(g), Len(Bnd(g))) /\ UNCHANGED <<c, cs, drift>>
+    [] e.k = "circ"  -> LET cc == CircFromAbs(e.c) IN c' = cc /\ cs' = CircSem(cc) /\ RefStep(e, cs', 2 * cc.n) /\ UNCHANGED <<cur, drift>>
+    [] e.k = "begin" -> UNCHANGED <<cur, c, cs, viol, drift, stats>>
+    [] e.k \in {"tensorf", "ctensorf"} ->
+         /\ viol' = IF e.res # "ok" THEN Append(viol, <<l, "NoPanic">>)
+                    ELSE Check1(e.rankok, "RankOK") \o Check1(e.fok, "FloatTensorOK") \o Check1(e.f4ok, "Tensor4FloatOK") \o viol
+         /\ stats' = [stats EXCEPT !.generic = @ + 1, !.nontrivial = @ + 1, !.generic_approx = @ + B2N(e.res = "ok" /\ e.approx)]
+         /\ UNCHANGED <<cur, c, cs, drift>>
     [] e.k = "tensor" ->
          /\ viol' = IF e.res # "ok" THEN Append(viol, <<l, "NoPanic">>)
                     ELSE LET n == Len(Bnd(cur)) IN
